@@ -130,6 +130,21 @@ func replayNative(repo, hdir string, h *Harness, path string) string {
 		Stack []string `json:"stack"`
 	}
 	json.Unmarshal(b, &rp)
+	if strings.HasPrefix(rp.Tag, "C16:") && rp.Kind == "assert" {
+		// dependence on Go's randomised map order: the native run fails with some probability
+		// per execution; repeat until two different orders are observed (bounded tries)
+		for try := 0; try < 40; try++ {
+			cmd := exec.Command(bin, "-test.run", "^TestVerifReplay$", "-test.v", "-test.timeout", "120s")
+			cmd.Dir = filepath.Join(repo, h.Pkg)
+			cmd.Env = append(os.Environ(), "VERIF_REPLAY="+path)
+			out, _ := cmd.CombinedOutput()
+			if strings.Contains(string(out), "VERIF-REPLAY-RESULT: ASSERT-FAILED C16:") {
+				os.WriteFile(path+".native.txt", out, 0o644)
+				return "reproduced"
+			}
+		}
+		return "native run did not reproduce in 40 tries"
+	}
 	cmd := exec.Command(bin, "-test.run", "^TestVerifReplay$", "-test.v", "-test.timeout", "120s")
 	cmd.Dir = filepath.Join(repo, h.Pkg)
 	cmd.Env = append(os.Environ(), "VERIF_REPLAY="+path)
